@@ -147,3 +147,39 @@ def check_c12(tier):
             "assumptions": ["stored coordinates are dyadic rationals so that float64 comparisons and tolerance sums are exact",
                             "== and != on Awkward records are excluded here (they raise: recorded under C05)"],
             "summary": f"{len(cases)} comparison states, {res['calls']} API calls"}
+
+
+# ------------------------------------------------------------------ C04
+def gen_conv():
+    cfg = ("SPECIFICATION Spec\nINVARIANT Shape\nINVARIANT IdentityKeeps\nINVARIANT DimChangesNeverCompute\n"
+           "INVARIANT Emit\nCHECK_DEADLOCK FALSE\n")
+    return _gen("Convert", "@@CONV ", cfg, "convert")
+
+
+def check_c04(tier):
+    from . import convx
+
+    cases, stats = gen_conv()
+    res = convx.replay(cases)
+    v = common.Verdicts("C04")
+    v.extend(res["records"])
+    nviol, nknown = v.finish()
+    if len(cases) < 2000 or res["calls"] < 20000:
+        raise RuntimeError("vacuous run")
+    kinds = {}
+    for c in cases:
+        kinds[c["kind"]] = kinds.get(c["kind"], 0) + 1
+    cov = {"states": stats["distinct"], "transitions": stats["generated"], "traces_validated_against_impl": len(cases),
+           "samples": [cases[0], cases[len(cases) // 2], cases[-1]], "states_by_kind": kinds, "implementation_calls": res["calls"],
+           "backends": ["object (60-digit)", "object (float64)", "NumPy", "Awkward array", "Awkward record"], "flavors": ["generic", "momentum"],
+           "evaluations": res["calls"], "distinct_nontrivial": len(cases),
+           "rule": ("states of spec/Convert.tla = 20 source systems x 20 targets x {geometric, momentum} spelling x keyword choices for to_<system>; "
+                    "20 sources x {to_VectorND, to_ND} x 3 dimensions x every keyword spelling; like; two-keywords-of-one-group TypeError cases - "
+                    "enumerated exhaustively with the invariants Shape, IdentityKeeps, DimChangesNeverCompute; each state is executed on five "
+                    "backends x two flavors: kept coordinates must be bit-identical, imputed ones exactly the keyword value or zero in the required "
+                    "coordinate type, computed groups must denote the same geometric part (1e-40 at 60 digits, 1e-9 in float64) and convert back"),
+           "exhaustive": True, "checker_cmd": "tlc2.TLC Convert.tla; harness/vverif/convx.py",
+           "trusted_base": ["TLC 1.8", "spec/Convert.tla", "harness/vverif/convx.py", "harness/vverif/coords.py"]}
+    return {"level": "model_checking", "coverage": cov, "violations": nviol, "known": nknown,
+            "assumptions": ["one well-conditioned source point per state (two elements for arrays): the structure of conversions does not depend on values; value-level agreement over the lattice is C01"],
+            "summary": f"{len(cases)} conversion states, {res['calls']} API calls"}
